@@ -24,7 +24,7 @@ class UnitOutcome:
         self.functions = []; self.items = []; self.trusted = []; self.cmds = []
         self.smt_ms = 0; self.wall_s = 0.0; self.round_trip = None
         self.canaries = {}; self.mutants = []; self.samples = []; self.gen_info = {}
-        self.clauses_total = 0; self.clauses_for_property = 0; self.verus_text = None
+        self.clauses_total = 0; self.clauses_for_property = 0; self.verus_text = None; self.known_clauses = []
 
 def clause_index(B):
     """label -> [line numbers]; distinct labels (per item) counted once."""
@@ -58,7 +58,7 @@ def run_unit(verif, name, pid, tier, scratch):
     def _canary():
         try:
             Bc = U.build(udir, REPO, "canary")
-            return Bc, VR.run(Bc.text, scratch, name + "_canary", Bc, multiple_errors=2), None
+            return Bc, VR.run(Bc.text, scratch, name + "_canary", Bc, multiple_errors=6), None
         except U.UnitError as e:
             return None, None, e
     fut_c = pool.submit(_canary)
@@ -88,7 +88,15 @@ def run_unit(verif, name, pid, tier, scratch):
         if nm not in [x[0] for x in O.failed]:
             O.failed.append((nm, d))
         if d.label: failed_labels.add((d.item, d.label))
-    O.obligations = O.verus_items + len(mine)
+    # known findings (listed in KNOWN_FINDINGS.txt) are reported separately and are not part of the claimed obligations
+    kf_names = {k[1] for k in known_findings(verif) if k[0] == pid}
+    known_labels = {(d.item, d.label) for d in R.diags if d.label and d.name(name) in kf_names}
+    O.known_clauses = sorted(f"{name}.{i or '_'}.{l}" for i, l in known_labels)
+    items_failing = {}
+    for d in R.diags:
+        items_failing.setdefault(d.item, set()).add(d.name(name) in kf_names)
+    only_known_items = sum(1 for it, flags in items_failing.items() if all(flags))
+    O.obligations = O.verus_items + len(mine) - len(known_labels & mine) - only_known_items
     O.discharged = R.verified + len(mine - failed_labels)
     # samples: a few labelled clauses written out
     lines = B.text.split("\n")
@@ -113,21 +121,21 @@ def run_unit(verif, name, pid, tier, scratch):
             for tn in Bc.template_canaries:
                 O.canaries["template:" + tn] = any(d.label == "canary:" + tn for d in Rc.diags)
             bad = [f for f, ok in O.canaries.items() if not ok]
-            if bad and not O.failed:
+            if bad and not [f for f in O.failed if f[0] not in kf_names]:
                 O.undecided = f"vacuity: canary postcondition verified for {bad} (contradictory precondition or shim)"
     except U.UnitError as e:
         O.undecided = f"canary build: {e}"
     # mutant smoke tests (thorough): fixed textual mutations of the extracted copy must fail a named obligation
     mp = os.path.join(udir, "mutants.json")
-    if tier == "thorough" and os.path.exists(mp) and not O.failed and not O.undecided:
+    if tier == "thorough" and os.path.exists(mp) and not [f for f in O.failed if f[0] not in kf_names] and not O.undecided:
         for m in json.load(open(mp)):
             rec = {"item": m["item"], "from": m["from"], "to": m["to"], "killed": False, "by": []}
             try:
                 Bm = U.build(udir, REPO, "verify", mutate=(m["item"], m["from"], m["to"]))
                 Rm = VR.run(Bm.text, scratch, name + "_mut", Bm)
                 O.cmds.append(Rm.cmd); O.smt_ms += Rm.smt_ms
-                rec["by"] = sorted({d.name(name) for d in Rm.diags})[:6]
-                rec["killed"] = bool(Rm.diags) and not Rm.compile_errors and not Rm.tool_failure
+                rec["by"] = sorted({d.name(name) for d in Rm.diags} - kf_names)[:6]
+                rec["killed"] = bool(rec["by"]) and not Rm.compile_errors and not Rm.tool_failure
                 if Rm.compile_errors: rec["note"] = "mutant did not compile: " + Rm.compile_errors[0].message
             except U.UnitError as e:
                 rec["note"] = f"mutant anchor lost: {e}"
@@ -198,6 +206,10 @@ def run_property(verif, pid, tier, seed):
     scratch = tempfile.mkdtemp(prefix="s3s-verif.", dir=os.environ.get("VERIF_SCRATCH", "/var/tmp"))
     atexit.register(lambda: shutil.rmtree(scratch, ignore_errors=True))
     t0 = time.time()
+    import glob
+    for old in glob.glob(os.path.join(verif, "replays", pid + "-*.json")):
+        try: os.remove(old)
+        except OSError: pass
     import concurrent.futures as CF
     with CF.ThreadPoolExecutor(max_workers=4) as ex:
         outcomes = list(ex.map(lambda u: run_unit(verif, u, pid, tier, scratch), conf["units"]))
@@ -254,7 +266,7 @@ def run_property(verif, pid, tier, seed):
             "discharged": sum(O.discharged for O in outcomes),
             "checker_cmd": " ; ".join(c for O in outcomes for c in O.cmds[:1]) or "none",
             "trusted_base": sorted({t for O in outcomes for t in O.trusted}),
-            "rule": "obligations = Verus function-level verification conditions (verified+errors as reported by Verus: "
+            "rule": "(clauses listed in KNOWN_FINDINGS.txt, and a function whose only failures are such clauses, are excluded from both counts and listed under known_finding_obligations_excluded_from_counts) obligations = Verus function-level verification conditions (verified+errors as reported by Verus: "
                     "safety — overflow, bounds, unwrap, callee preconditions, termination — and all contract clauses of that function) "
                     "+ the labelled contract clauses serving this property, counted from the generated file; discharged = those Verus reported no error for",
             "back_end": "Verus 0.2026.09.13 / Z3 (bundled)",
@@ -265,6 +277,7 @@ def run_property(verif, pid, tier, seed):
                 "solver": O.functions, "smt_ms": O.smt_ms, "wall_s": round(O.wall_s, 2),
                 "canaries_failed_as_expected": O.canaries, "mutants": O.mutants,
                 "failed_obligations": [nm for nm, _ in O.failed], "failed_other_properties": O.other_failed,
+                "known_finding_obligations_excluded_from_counts": O.known_clauses,
                 "generated": O.gen_info, "checker_cmds": O.cmds,
             } for O in outcomes],
             "samples": [s for O in outcomes for s in O.samples][:8] or [{"note": "no labelled clause"}],
